@@ -17,6 +17,10 @@ package http2
 //   flow.go outflow.take: drop `f.conn.n -= n`                                           -> VerifC09_body, VerifC09_twoBodies (connection window exceeded on the wire)
 //   transport.go processSettingsNoWrite: `delta := int32(s.Val) - int32(cc.initialWindowSize)`→`int32(s.Val)` -> VerifC09_settingsStep, VerifC09_body
 
+// Seeded change C09-B (processSettingsNoWrite commits cc.initialWindowSize only after the whole frame, so a repeated
+//   INITIAL_WINDOW_SIZE is applied relative to the value from before the frame) -> VerifC09_settingsFrame (I) and
+//   VerifC09_body (B: DATA beyond the server's stream window on the wire / writer never resumes)
+
 import (
 	"bufio"
 	"context"
@@ -29,6 +33,7 @@ func init() {
 	vfRegister("VerifC09_awaitStep", VerifC09_awaitStep)
 	vfRegister("VerifC09_windowUpdateStep", VerifC09_windowUpdateStep)
 	vfRegister("VerifC09_settingsStep", VerifC09_settingsStep)
+	vfRegister("VerifC09_settingsFrame", VerifC09_settingsFrame)
 	vfRegister("VerifC09_body", VerifC09_body)
 	vfRegister("VerifC09_twoBodies", VerifC09_twoBodies)
 	vfRegister("VerifC09_bigBody", VerifC09_bigBody)
@@ -266,6 +271,103 @@ func VerifC09_settingsStep() {
 	vfReach("end")
 }
 
+// processSettingsNoWrite with a SETTINGS frame that carries SEVERAL settings: 2, each one INITIAL_WINDOW_SIZE,
+// MAX_FRAME_SIZE or MAX_CONCURRENT_STREAMS (vfChoice) (thorough also 3, each INITIAL_WINDOW_SIZE or MAX_FRAME_SIZE),
+// with arbitrary 32-bit values, so the same setting may occur more than once. RFC 9113 §6.5.3: "The values in the SETTINGS frame MUST be processed in the
+// order they appear": the reference folds the entries in order, exactly as the server does for its own view of the
+// stream windows (each INITIAL_WINDOW_SIZE moves every open stream window by value - previous value, where the
+// previous value is the one set by the preceding entry). Processing stops at the first invalid entry (connection
+// error); whatever was applied before it must still be within the server's view.
+func VerifC09_settingsFrame() {
+	h := h2cNewConn()
+	cc := h.cc
+	iws := vfU32("initialWindowSize")
+	vfAssume(iws <= c09maxWin)
+	cc.initialWindowSize = iws
+	a := h2cNewStream(cc)
+	h2cPutStream(cc, a, 1)
+	cc.nextStreamID = 3
+	an, cn := vfI32("streamWindow"), vfI32("connWindow")
+	vfAssume(c09inv(an, iws))
+	a.flow.n, cc.flow.n = an, cn
+	mfs0, mcs0 := cc.maxFrameSize, cc.maxConcurrentStreams
+	seen0 := vfChoice("seenSettings", 2) == 1 // first SETTINGS frame of the connection or a later one
+	cc.seenSettings = seen0
+	ne := 2
+	ids := []SettingID{SettingInitialWindowSize, SettingMaxFrameSize, SettingMaxConcurrentStreams}
+	if vfTier() > 0 && vfChoice("three-entries", 2) == 1 {
+		// thorough: also three entries, each INITIAL_WINDOW_SIZE or MAX_FRAME_SIZE (the two settings of this property)
+		ne, ids = 3, ids[:2]
+	}
+	var ss []Setting
+	niws, nmcs := 0, 0
+	for i := 0; i < ne; i++ {
+		id := ids[vfChoice("setting", len(ids))]
+		switch id {
+		case SettingInitialWindowSize:
+			niws++
+		case SettingMaxConcurrentStreams:
+			nmcs++
+		}
+		ss = append(ss, Setting{id, vfU32("value")})
+	}
+	err := h.rl.processSettingsNoWrite(h2cSettingsFrame(ss...))
+
+	// reference: the entries in order. valid = "no invalid entry so far" (fork-free); the ghost* values are the
+	// server's view, want* what the client must hold (a window that would pass 2^31-1 is left as it was)
+	valid := true
+	var wantCode ErrCode
+	curIWS, wantMFS, wantMCS := int64(iws), mfs0, mcs0
+	ghostA, wantA := int64(an), int64(an)
+	for _, e := range ss {
+		v := int64(e.Val)
+		switch e.ID {
+		case SettingInitialWindowSize:
+			ok := v <= c09maxWin
+			wantCode = ErrCode(vfIteU32(vfAnd(valid, vfNot(ok)), uint32(ErrCodeFlowControl), uint32(wantCode)))
+			valid = vfAnd(valid, ok)
+			d := vfIteI64(valid, v-curIWS, 0)
+			ghostA += d
+			wantA = vfIteI64(wantA+d <= c09maxWin, wantA+d, wantA)
+			curIWS = vfIteI64(valid, v, curIWS)
+		case SettingMaxFrameSize:
+			ok := vfAnd(v >= 16384, v <= 1<<24-1)
+			wantCode = ErrCode(vfIteU32(vfAnd(valid, vfNot(ok)), uint32(ErrCodeProtocol), uint32(wantCode)))
+			valid = vfAnd(valid, ok)
+			wantMFS = vfIteU32(valid, e.Val, wantMFS)
+		case SettingMaxConcurrentStreams:
+			wantMCS = vfIteU32(valid, e.Val, wantMCS)
+		}
+	}
+	if err != nil {
+		vfReach("rejected")
+		ce, isCE := err.(ConnectionError)
+		vfAssert(isCE, "an invalid setting is a connection error")
+		vfAssert(vfNot(valid), "only a frame with an invalid entry is rejected")
+		vfAssert(ErrCode(ce) == wantCode, "error code of the first invalid entry (FLOW_CONTROL_ERROR for INITIAL_WINDOW_SIZE > 2^31-1, PROTOCOL_ERROR for MAX_FRAME_SIZE)")
+	} else {
+		vfReach("applied")
+		vfAssert(valid, "a frame with an invalid entry is rejected")
+		vfAssert(int64(cc.initialWindowSize) == curIWS, "the LAST INITIAL_WINDOW_SIZE of the frame is recorded for future streams")
+		vfAssert(cc.maxFrameSize == wantMFS, "the last MAX_FRAME_SIZE of the frame is in force")
+		if nmcs == 0 && !seen0 {
+			wantMCS = defaultMaxConcurrentStreams // first SETTINGS frame without the setting: the Transport's default
+		}
+		vfAssert(cc.maxConcurrentStreams == wantMCS, "the last MAX_CONCURRENT_STREAMS of the frame is in force")
+		vfAssert(cc.seenSettings, "first SETTINGS frame noted")
+		vfAssert(c09inv(a.flow.n, cc.initialWindowSize), "Inv preserved")
+		if niws >= 2 {
+			vfReach("initial-window-size-twice")
+		}
+	}
+	// also after a rejected frame (entries before the invalid one were applied): never above the server's view
+	vfAssert(ghostA >= math.MinInt32, "Inv excludes wrap-around below -2^31")
+	vfAssert(int64(a.flow.n) == wantA, "stream window moved by each INITIAL_WINDOW_SIZE entry relative to the preceding value (net: last - old)")
+	vfAssert(int64(a.flow.n) <= ghostA, "client's view never above the server's view")
+	vfAssert(cc.flow.n == cn, "connection window is not affected by SETTINGS")
+	vfReach("end")
+}
+
 // ---------------------------------------------------------------------------------------------------------------
 // B: writeRequestBody against a server model
 
@@ -455,7 +557,14 @@ func c09bodies(nstreams int) {
 			server(func() { w.conn += int64(inc) })
 			vfAssert(h.rl.processWindowUpdate(c09wu(0, uint32(inc))) == nil, "WINDOW_UPDATE accepted")
 		case 3:
+			// one SETTINGS frame with INITIAL_WINDOW_SIZE once or twice (RFC 9113 §6.5.3: processed in order, so the
+			// net effect on every open stream is last - old; the Transport does not reject repeated settings)
+			var set []Setting
+			if vfChoice("repeatedSetting", 2) == 1 {
+				set = append(set, Setting{SettingInitialWindowSize, uint32(2 * vfChoice("firstInitialWindow", 2))})
+			}
 			nv := 2 * vfChoice("newInitialWindow", 2) // 0 or 2
+			set = append(set, Setting{SettingInitialWindowSize, uint32(nv)})
 			// RFC 9113 §6.9.2/§6.5.3: an increase is usable by the client as soon as it has the frame; a decrease
 			// binds the client only from the moment it has processed (acknowledged) the SETTINGS frame — DATA it
 			// sent before that is legal even if it overdraws the new window (which then goes negative).
@@ -470,7 +579,7 @@ func c09bodies(nstreams int) {
 			if delta > 0 {
 				adjust()
 			}
-			vfAssert(h.rl.processSettingsNoWrite(h2cSettingsFrame(Setting{SettingInitialWindowSize, uint32(nv)})) == nil, "SETTINGS accepted")
+			vfAssert(h.rl.processSettingsNoWrite(h2cSettingsFrame(set...)) == nil, "SETTINGS accepted")
 			if delta < 0 {
 				adjust()
 			}
